@@ -3,6 +3,15 @@ import histcheck as hc, profiles, dumps, hist, vf
 
 def flavour_oracle(scr, out):
     hits = []
+    # the MODE of every encapsulation and re-encapsulation: hybridized iff every right it targets is (reference semantics)
+    import spec
+    if any(l.split(' ')[0] in ('EN', 'RC') for l in scr) and not any(l.split(' ')[0] in ('REST', 'HINT') for l in scr):
+        for ln, (m, o) in enumerate(zip(spec.predict_modes(scr), out)):
+            parts = o.split('|')
+            if m is None or parts[0] != 'OK' or len(parts) < 3 or not parts[2].startswith('ENC'): continue
+            got = ' h=1 ' in parts[2] + ' '
+            if got != m:
+                hits.append((ln, f'{" ".join(hist.pretty([scr[ln]]))}: the encapsulation is {"hybridized" if got else "classic"}, every right it targets is {"hybridized: it must be hybridized" if m else "not hybridized: it must be classic"}')); break
     for ln, (l, o) in enumerate(zip(scr, out)):
         parts = o.split('|')
         if l.split(' ')[0] == 'REST' and parts[0] == 'OK': return hits      # a restored backup rolls identifiers back: keys issued since are outside its history
@@ -84,7 +93,7 @@ def run(ctx):
     if not hc.ensure_builds(ctx): hc.finish(ctx, 'builds failed')
     n = 500 if ctx.quick() else 10000
     # the name-level semantics also predicts the mode of every encapsulation (h=) through decapsulation outcomes of classic-only holders
-    H, impl, model, dis, hits = hc.run_profile(ctx, profiles.with_scenarios(profiles.C11), n, trigger=trigger, extra_oracle=flavour_oracle, claims=lambda op, a, b: op in ('EN', 'DE'))
+    H, impl, model, dis, hits = hc.run_profile(ctx, (lambda g0: (lambda rng: profiles.mixed_recaps_scenario(rng) if rng.random() < 0.06 else g0(rng)))(profiles.with_scenarios(profiles.C11)), n, trigger=trigger, extra_oracle=flavour_oracle, claims=lambda op, a, b: op in ('EN', 'DE'))
     if not hits: kem_binding(ctx)
     hc.vm_crosscheck(ctx, H, model)
     hc.finish(ctx, f'{n} random histories over structures with arbitrary hint assignments, single/multi-target and mixed policies, through rekey/refresh/round trips; every dump is checked: a right is hybridized iff one of its '
